@@ -84,6 +84,23 @@ type Enc struct {
 	implQueries []implQuery
 	allocSites  []allocSite
 	UsedTypeInv map[string]bool
+	// replay support: named terms whose model values describe a concrete failing input
+	Witness []WitTerm
+	Shaping []*smt.Term // constraints that keep a counterexample executable (lengths <= N)
+	loopFramed map[*ssa.BasicBlock][]loopFrame
+	loopAlloc  map[*ssa.BasicBlock]*smt.Term
+	phiEntry   map[*ssa.Phi]*smt.Term
+	callSeq int
+}
+
+// WitTerm is one named witness term.
+type WitTerm struct {
+	Name string
+	T    *smt.Term
+}
+
+func (e *Enc) addWitness(name string, t *smt.Term) {
+	e.Witness = append(e.Witness, WitTerm{name, t})
 }
 
 type deferRec struct {
@@ -242,8 +259,22 @@ func (e *Enc) typedObj(st *State, obj *smt.Term, t types.Type) *smt.Term {
 
 // wellFormed returns the type invariant of a value of type t (is_valid).
 func (e *Enc) wellFormed(v *smt.Term, t types.Type, st *State) *smt.Term {
+	return e.wellFormedB(v, t, st, st.Alloc)
+}
+
+// wellFormedAt: a value read from heap hn. If that heap has not been written since function entry the value was
+// stored before entry, so whatever it points to was allocated before entry (it cannot alias an object of this activation).
+func (e *Enc) wellFormedAt(v *smt.Term, t types.Type, st *State, hn string) *smt.Term {
+	if hn != "" && e.Alloc0 != nil {
+		if _, written := st.Heaps[hn]; !written {
+			return e.wellFormedB(v, t, st, e.Alloc0)
+		}
+	}
+	return e.wellFormedB(v, t, st, st.Alloc)
+}
+
+func (e *Enc) wellFormedB(v *smt.Term, t types.Type, st *State, alloc *smt.Term) *smt.Term {
 	c := e.C
-	alloc := st.Alloc
 	switch u := t.Underlying().(type) {
 	case *types.Pointer:
 		obj := e.ptrObj(v)
@@ -337,6 +368,13 @@ func (e *Enc) load(st *State, loc *Loc) *smt.Term {
 	// plain cell
 	if isOpaqueStructT(t) {
 		return c.LitU(0, 64)
+	}
+	if isU256(t) && obj.IsLit() && obj.Val.Bit(63) == 1 {
+		// a package-level uint256 constant declared in the contract file: its value is fixed (every write through
+		// such a pointer is a failed frame obligation, see writeU256), so reads do not go through the heap
+		if v := e.globalU256Value(obj.Val.Uint64() &^ (1 << 63)); v != nil {
+			return v
+		}
 	}
 	if a, ok := t.Underlying().(*types.Array); ok && !isU256(t) {
 		n := int(a.Len())
